@@ -59,6 +59,8 @@ class C06Conservation(Checker):
                 w.violate('C06', 'parent-link-wrong', {'elem': n.name, 'par': c['par']})
                 return
         for r in w.removed[-6:]:
+            if r.parent is not None or any(r is d for d in w.docs.values()):
+                continue        # re-attached since
             try:
                 p = r.el.get_parent()
             except Exception as e:
